@@ -213,8 +213,7 @@ def back_to_myokit(rep, ode, label, src_model=None, text=None):
         try:
             mm = gotran_to_myokit(ode)
         except Exception as ex:  # noqa: BLE001
-            key = "C15-nary-connectives-not-readable-by-myokit" if (isinstance(ex, TypeError) and ".__init__() takes 3 positional arguments" in str(ex)) else None
-            rep.violation(f"{label}: gotran_to_myokit raises {type(ex).__name__}: {str(ex)[:120]}", {"kind": "direct", "label": label, "text": text}, finding_key=key)
+            rep.violation(f"{label}: gotran_to_myokit raises {type(ex).__name__}: {str(ex)[:120]}", {"kind": "direct", "label": label, "text": text})
             return
     vals = {v.name(): v for v in mm.variables(deep=True)}
     for s in ode.states:
